@@ -79,13 +79,28 @@ def enforcement(res: Result, req: dict, identical: set):
     for lst in sim.call_in_pool('harness.c07:enumerate_family', family_bases()):
         for j in lst:
             n = j['name']
-            if n in seen or n not in req or n not in identical or j['label'] != 'min' or j['p']['kind'] != 'float' or j['family'] == 'hip_ra_x':
+            if n not in req or n not in identical or j['label'] != 'min' or j['p']['kind'] != 'float' or j['family'] == 'hip_ra_x':
                 continue
             sc = req[n]
             u, lo, hi = sc.get('units'), sc.get('minimum'), sc.get('maximum')
             if not isinstance(u, str) or not u.strip() or not all(isinstance(x, (int, float)) and not isinstance(x, bool) for x in (lo, hi)):
                 continue
             if not (abs(lo) < 1e12 and abs(hi) < 1e12):
+                continue
+            # a figure inside the published bounds, written in another listed unit of the same quantity, is accepted and stored as the
+            # published unit's figure: every other unit in the first family that has the parameter, one (rotating) in each further
+            # family - the families' readers differ (SBT, SUTRA, AGS read their parameters in their own loops)
+            if u in cat and not any(w_ in u for w_ in ('USD', 'cents', 'EUR')):
+                others = [w for w in sorted(cat) if w and w != u and cat[w][0] == cat[u][0] and not any(w_ in w for w_ in ('USD', 'cents', 'EUR'))]
+                if n in seen and others:
+                    others = [others[(len(j['family']) + len(n)) % len(others)]]
+                inside = Fraction(float(lo)) + (Fraction(float(hi)) - Fraction(float(lo))) * Fraction(37, 100)
+                for w in others:
+                    x = float(convert(cat, inside, u, w))
+                    back = convert(cat, Fraction(x), w, u)
+                    if math.isfinite(x) and Fraction(float(lo)) < back < Fraction(float(hi)):
+                        jobs.append(dict(j, label=f'schema_inside_in[{w}]', text=f'{x!r} {w}', v=rat(float(back))))
+            if n in seen:
                 continue
             seen.add(n)
             for label, x in (('schema_min', float(lo)), ('schema_max', float(hi)), ('schema_below_min', math.nextafter(float(lo), -math.inf)),
@@ -119,14 +134,14 @@ def enforcement(res: Result, req: dict, identical: set):
     res.traces += len(traces)
     n_judged = 0
     for t, o in zip(traces, outs):
-        res.case(f"enforce:{o['name']}:{o['label']}")
-        if o['outcome'] == 'other' or (o['outcome'] == 'rejected' and 'outside of valid range' not in (o['error'] or '') and o['label'] in ('schema_min', 'schema_max')):
+        res.case(f"enforce:{o['family']}:{o['name']}:{o['label']}")
+        if o['outcome'] == 'other' or (o['outcome'] == 'rejected' and 'outside of valid range' not in (o['error'] or '') and (o['label'] in ('schema_min', 'schema_max') or o['label'].startswith('schema_inside_in'))):
             res.count('enforcement_reads_that_died_in_the_unit_machinery')
             continue
         n_judged += 1
         bad = [c for c in vd[t['tid']]['f'] if c.startswith('C07_')]
         if bad:
-            res.violation({'clause': 'C19_enforced', 'item': o['name'], 'case': o['label']},
+            res.violation({'clause': 'C19_enforced', 'item': o['name'], 'case': o['label'], 'family': o['family']},
                           f"C19_enforced: '{o['name']}, {o['text']}' (schema unit and bound) -> {o['outcome']} (stored {o['after']}, error={o['error']}): {bad}",
                           {'line': f"{o['name']}, {o['text']}", 'family': o['family'], 'outcome': o['outcome'], 'after': o['after'], 'error': o['error']})
     res.cov['enforcement_cases_judged'] = n_judged
